@@ -37,7 +37,7 @@ inductive Rx where
   | backref (idx : Nat) : Rx
   | look (ahead neg : Bool) (width : Nat) (r : Rx) : Rx   -- `width` is used by look-behind only
   | bos | bol | eos | eol | eosStrict | wordb | nwordb : Rx
-  deriving Repr
+  deriving Repr, DecidableEq
 
 /-- Unicode category tests of `str` patterns, supplied by the generated tables. -/
 structure CatTables where
